@@ -16,11 +16,11 @@ CHECKS = {
    note="Type and constant inventory comes from go/types on types.go; the regeneration driver is added by build overlay (nothing written to /repo).",
    technique="exhaustive input enumeration + regeneration (translation) comparison", ref="3 C20"),
  "C08": dict(level="model_checking",
-   text="Explicit exploration of call histories: every sequence up to the bound over a 34-call pool chosen to collide on package-level state (incl. near-twin inputs that differ only in a detail a lossy cache key would conflate), each history executed in its own fresh process; every position must return what the same call returns when made first in a fresh process, and solo calls are repeated across processes (Encode determinism). Behavioural states (vectors of one-step futures) are counted: a pure implementation has exactly one.",
+   text="Explicit exploration of call histories: every sequence up to the bound over a 37-call pool chosen to collide on package-level state (incl. near-twin inputs that differ only in a detail a lossy cache key would conflate), each history executed in its own fresh process; every position must return what the same call returns when made first in a fresh process, and solo calls are repeated across processes (Encode determinism). Behavioural states (vectors of one-step futures) are counted: a pure implementation has exactly one.",
    note="Fresh-process baseline means no in-process reset has to be trusted. The package-level distance accumulator (listed finding) is shadowed and attributed exactly. Map-iteration nondeterminism is observed through repeated fresh-process runs, not enumerated.",
    technique="explicit-state exploration of call histories with a fresh-process differential oracle", ref="3 C08"),
  "C09": dict(level="model_checking",
-   text="Stateless schedule exploration on the real code under a cooperative scheduler with iterative preemption bounding. Scheduling points: (1) every Read/Write on harness-owned readers/writers (reads cut at record boundaries; the decoding calls again at byte granularity) for all unordered pairs of the 34 pool calls plus 3-thread and 2-calls-per-thread scenarios; (2) every access to a mutable package-level variable, through a build overlay generated from the current tree by tools in harness/cmd/vinstr (nothing written to /repo), each scenario in a fresh process, with an access-conflict oracle (variable written and touched by both goroutines, no locks in the package). Each thread must return its solo result under every schedule. A separate free-running pass of the same bodies under the Go race detector classifies every report by function signature.",
+   text="Stateless schedule exploration on the real code under a cooperative scheduler with iterative preemption bounding. Scheduling points: (1) every Read/Write on harness-owned readers/writers (reads cut at record boundaries; the decoding calls again at byte granularity) for all unordered pairs of the 35 pool calls plus 3-thread and 2-calls-per-thread scenarios; (2) every access to a mutable package-level variable, through a build overlay generated from the current tree by tools in harness/cmd/vinstr (nothing written to /repo), each scenario in a fresh process, with an access-conflict oracle (variable written and touched by both goroutines, no locks in the package). Each thread must return its solo result under every schedule. A separate free-running pass of the same bodies under the Go race detector classifies every report by function signature.",
    note="Interleavings are sequentially consistent at the granularity of the scheduling points; weak-memory effects are only sampled by the race-detector pass. Preemption bound completed: 2 (quick) / 4 (thorough) for pairs. The access-level pass leaves out the calls that hit the listed accumulator finding; if the package starts using locks/atomics the access-conflict oracle stands down (never a false alarm) and the race pass remains.",
    technique="stateless model checking with a controlled scheduler (environment-call and instrumented-access scheduling points), preemption bounding + separate race-detector pass", ref="3 C09"),
  "C05": dict(level="exploration",
@@ -90,6 +90,23 @@ CHECKS = {
 }
 
 REASONS_PENDING = "check not built yet in this snapshot of /verif (planned per DESIGN.md section 3; model checking applies)"
+# families added in seeding rounds 11 and 12 (the process as an environment answer; oracles that do not compare the
+# implementation with itself)
+_ENV = {
+ "tz": " The process time zone is an environment answer: a digest family is executed in fresh processes under TZ = UTC, Asia/Kathmandu, America/St_Johns, Pacific/Chatham and must not differ.",
+ "procs": " The processor count is an environment answer: a family of large inputs is executed in fresh processes under GOMAXPROCS 1, 2, 3, 4, 7, 8, 16 and must give identical results.",
+ "env": " Environment variables are environment answers: every variable the library sources read is varied in fresh processes; the behavioural digest must not change.",
+}
+for _id, _ks in {"C01": ["procs"], "C02": ["tz"], "C04": ["procs"], "C05": ["procs"], "C06": ["tz", "procs"], "C07": ["procs"], "C08": ["procs", "env"], "C10": ["env"], "C11": ["procs"], "C12": ["tz"], "C14": ["procs"], "C17": ["tz"]}.items():
+    for _k in _ks:
+        CHECKS[_id]["text"] += _ENV[_k]
+CHECKS["C05"]["text"] += " Expected wire values are computed from the File before Encode is called; array fields are also given as sub-slices of one shared backing array."
+CHECKS["C06"]["text"] += " Reference values come from a second identical File that Encode never sees; every seventh File follows two failing Encode calls."
+CHECKS["C07"]["text"] += " Generation 1 is taken from a second decode that Encode never sees."
+CHECKS["C15"]["text"] += " Every entry of every known message is also declared with each of the 17 base types at four sizes in both byte orders: no reflection access may fail."
+CHECKS["C19"]["text"] += " The output directory is an environment answer (already holding stale or half-written generated files); the generator also runs under three processor counts."
+CHECKS["C20"]["text"] += " Through the command: fitgen into directories holding stale string tables must leave the tables of a fresh run; regeneration under seven processor counts."
+
 
 def main():
     checks = []
